@@ -21,8 +21,8 @@ Print Assumptions c08_valve_gap_is_error.
 
 (* non-vacuity: a two-packet response received in both orders *)
 Example c08_ex :
-  let p0 := mk_split 7 2 0 1248 None [255; 255; 255; 255; 69] in
-  let p1 := mk_split 7 2 1 1248 None [1; 0; 65; 0; 66; 0] in
+  let p0 := mk_split 4294967294 7 2 0 1248 None [255; 255; 255; 255; 69] in
+  let p1 := mk_split 4294967294 7 2 1 1248 None [1; 0; 65; 0; 66; 0] in
   NoDup (map sp_number [p0; p1]) /\
   fst (reassemble (fun _ _ => Err Decompress) [p1; p0] (net_init [] [] [])) = Ok (69, [1; 0; 65; 0; 66; 0]) /\
   fst (reassemble (fun _ _ => Err Decompress) [p0; p0] (net_init [] [] [])) = Err PacketBad.
